@@ -34,8 +34,8 @@ Print Assumptions C16_depth_seq.
    a propagating raise inside the nested emission leaves the switches restored *)
 Definition hnd (id : N) (re raises : bool) (acts : list node) : node := Node (TgHandler id re raises CContinue) acts.
 Definition em1 (allow_re re : bool) : node :=
-  Node TgEm [Node (TgTracer allow_re true false)
-     [hnd 1 re false [Node TgCatch [Node TgEm [Node (TgTracer allow_re true false) [hnd 2 re true []]]]]]].
+  Node TgEm [Node (TgTracer allow_re true false false)
+     [hnd 1 re false [Node TgCatch [Node TgEm [Node (TgTracer allow_re true false false) [hnd 2 re true []]]]]]].
 Example C16_nonvacuous :
   inv st0 /\ good_log st0 /\
   log (snd (run (em1 false false) st0)) = [(0, false, 1%N)]%nat /\
